@@ -5,7 +5,7 @@ from __future__ import annotations
 import ast
 from typing import List, Optional, Set
 
-from ..astutil import arg_of, call_name, calls, guards, kwarg, last_attr, stmt_key, txt, walk_local
+from ..astutil import arg_of, call_name, calls, enclosing_loops, guards, kwarg, last_attr, stmt_key, txt, walk_local
 from ..cfg import CFG
 from ..flow import bound_from
 from ..index import AnalysisError, dotted
@@ -111,7 +111,7 @@ def r20_1(ctx: Ctx) -> None:
 
 
 def r20_2(ctx: Ctx) -> None:
-    from ..flow import exact_condition, inline_reaching, nnf, nnf_atoms, nnf_equiv, nnf_not, nnf_or, resolved_facts
+    from ..flow import exact_condition, inline_reaching, nnf, nnf_atoms, nnf_equiv, nnf_not, nnf_or, path_facts, resolved_facts
     qual = "prepare_output_directory"
     func = ctx.fn(MAIN, qual, inline=True)
     cfg = CFG(func)
@@ -122,6 +122,21 @@ def r20_2(ctx: Ctx) -> None:
         form = resolved_facts(cfg, node, ctx.repo, MAIN)
         if any("_ignore_patterns" in atom for atom in nnf_atoms(form)):
             refusal, refusal_form = node, form
+    collected = None
+    if refusal is None:
+        # the foreign entries may be gathered first: a list filled under `_ignore_patterns(x)` for x over the directory's
+        # entries, and the refusal conditioned on that list being non-empty
+        for node in raises:
+            for expr, truth in path_facts(cfg, node):
+                if not (truth and isinstance(expr, ast.Name)):
+                    continue
+                fills = [c for c in calls(func) if last_attr(c) == "append" and txt(c.func.value) == expr.id
+                         and any(t and "_ignore_patterns" in txt(e) for e, t in path_facts(cfg, c))]
+                loops = [lp for c in fills for lp in enclosing_loops(c, stop=func) if isinstance(lp, ast.For)]
+                if fills and loops:
+                    refusal = node
+                    collected = (expr.id, txt(inline_reaching(cfg, loops[0], loops[0].iter)))
+                    refusal_form = resolved_facts(cfg, node, ctx.repo, MAIN)
     if refusal is None:
         ctx.ob("R20.2", MAIN, func, qual, "refusal test", False,
                "a non-empty output directory (other than ignored entries) is refused unless results are being reused",
@@ -130,6 +145,8 @@ def r20_2(ctx: Ctx) -> None:
     lits = {lit for lit in refusal_form[1] if lit[0] == "lit"}
     reuse = [lit for lit in lits if lit[1].replace('"', "'") == "input_file.endswith('.json')" and lit[2] is False]
     other = [lit for lit in lits if "_ignore_patterns" in lit[1] and lit[2] is True]
+    if collected is not None:
+        other = [lit for lit in lits if lit[1] == collected[0] and lit[2] is True]
     # literals that only establish that the directory exists are part of every path to the refusal
     extra = [lit for lit in lits if lit not in reuse + other and "os.path.exists(name)" not in lit[1]
              and "os.path.isdir(name)" not in lit[1]]
@@ -140,6 +157,8 @@ def r20_2(ctx: Ctx) -> None:
            form=" and ".join(sorted(("" if lit[2] else "not ") + lit[1] for lit in lits)))
     # what the refusal looks at is the complete content of the directory
     listing = other[0][1].replace('"', "'") if other else ""
+    if collected is not None:
+        listing = collected[1].replace('"', "'")
     complete = ("os.listdir(name)" in listing or "os.scandir(name)" in listing) and "glob.glob(" not in listing
     if "glob.glob(" in listing:
         complete = "glob.escape(name)" in listing and "include_hidden=True" in listing
